@@ -76,10 +76,15 @@ lists every access**.  That proviso is the trusted part:
   aliasing through results of calls other than `append`/conversions; two distinct fields sharing one
   referent unless the configuration puts them into one region; distinct instances of one type (all
   receivers are taken to be the same object, and a mutex is identified by its field name);
-* calls through a reference-typed field into another component: classified by a syntactic "writes
-  receiver-rooted state" scan when the callee's source is among the analysed packages, taken to write
-  when it is not, and taken to be read-only for the entries of `assumedReadOnly` (that component's
-  contract, e.g. `CompiledKeyBuilder` "can be considered thread-safe");
+* calls through a reference-typed field into another component (`s.keyBuilder.BuildKey(…)`,
+  `aggregator.Sample(…)`): classified by a syntactic "writes state reachable from its receiver" scan of
+  the callee when its source is among the loaded packages (assignments / append / copy / delete rooted at
+  the receiver, transitively through methods called on receiver-rooted paths; an interface method is the
+  disjunction over the methods of that name and shape in the loaded packages; what a callee does through
+  a function value or through an interface it holds is not followed), taken to WRITE when the source is
+  not loaded, and taken to be read-only only for the entries of the generated `assumedReadOnly` list
+  (today: the logger's `OsExit` hook); methods of `*log.Logger`, `*regexp.Regexp`, `*os.File` (documented
+  as safe for concurrent use) and of `ObjectPool` (race free by its own table) count as atomic;
 * what the receiver of an escaped reference does with it: the escape is recorded as an unlocked *read*
   of the referent (the least it can do), which flags every escape of a referent that is written under
   the lock anywhere – the pattern of `seeded/C05-status-unlocked-join` – but not a receiver that writes.
